@@ -475,7 +475,7 @@ def expand_anchor(a, anchors):
 def gen(ctx):
     rng = ctx.rng
     cases = []
-    N = ctx.scale(850, 12000)
+    N = ctx.scale(750, 12000)
     # every class x byte order x table-switching machine at least once, with and without sections
     for is64 in (False, True):
         for le in (False, True):
